@@ -2,7 +2,8 @@ package gqlty
 
 import "strings"
 
-// Error codes shared with GqlTyping/Parse.v (`perr`): the class of a ClientError returned by graphql.Parse.
+// Classes of the message text of an error returned by graphql.Parse: informational only (histogram); the
+// numbers follow `code_of` of GqlTyping/Parse.v.
 const (
 	CodeOK               = 0
 	CodeSyntax           = 1
@@ -26,6 +27,14 @@ const (
 	CodeInlineNoType     = 19
 	CodeUnknownMessage   = 50
 	CodePanic            = 99
+)
+
+// Verdicts compared with the model (GqlTyping/Check15.v, Check14.v): what kind of answer, never its wording.
+const (
+	VerdictOK          = 0
+	VerdictClientError = 1
+	VerdictOtherError  = 2
+	VerdictPanic       = 99
 )
 
 // ParseErrCode classifies the message of an error returned by graphql.Parse.  Syntax errors are
